@@ -1,4 +1,6 @@
 //! Engine E3: bounded-exhaustive lanes against the independent references in vcore.
+pub mod util;
+pub mod c02;
 pub mod c03;
 pub mod c06;
 pub mod c07;
